@@ -1,8 +1,10 @@
 package checks
 
 import (
+	"crypto/sha256"
 	"encoding/base64"
 	"fmt"
+	"github.com/nuetzliches/hookaido/internal/queue"
 	"math"
 	"math/big"
 	"net"
@@ -575,6 +577,13 @@ func C08(c *vlib.Ctx) {
 				resp := l2.Do(a.Ingress, req)
 				after, _ := vlib.ListAll(a.Store)
 				changed := len(after) != len(before)
+				// "leaves the queue untouched" includes what is already in it: payload, headers,
+				// state and addressing of every message admitted earlier
+				if altered := c08Altered(before, after); altered != "" && resp.Status != 202 {
+					c.Violation(vlib.Signature{"class": "rejected_request_altered_queued_message", "kind": rt.Kind},
+						fmt.Sprintf("%s route %s: a request answered %d (mutation %q) changed a message that was already queued: %s", rt.Kind, rt.Path, resp.Status, mut, altered),
+						map[string]any{"config": txt, "route": rt.Path, "mutation": mut, "status": resp.Status})
+				}
 				authOK, boundary := rt.authentic(q, clock.Now(), fwdStatus)
 				c.Count("evaluations", 1)
 				c.Distinct("nontrivial", fmt.Sprintf("%s:%s:auth=%v:%d", rt.Kind, mut, authOK, resp.Status))
@@ -624,4 +633,28 @@ func C08(c *vlib.Ctx) {
 			c.Inconclusive("no valid " + k + " request was accepted (vacuous run)")
 		}
 	}
+}
+
+// c08Altered reports the first message present before and after whose content differs.
+func c08Altered(before, after []queue.Envelope) string {
+	dig := func(e queue.Envelope) string {
+		return fmt.Sprintf("%s|%s|%s|%x|%v", e.State, e.Route, e.Target, sha256.Sum256(e.Payload), e.Headers)
+	}
+	was := map[string]string{}
+	for _, e := range before {
+		was[e.ID] = dig(e)
+	}
+	seen := map[string]bool{}
+	for _, e := range after {
+		seen[e.ID] = true
+		if w, ok := was[e.ID]; ok && w != dig(e) {
+			return fmt.Sprintf("message %s was %.60s and is %.60s (payload now %q)", e.ID, w, dig(e), string(e.Payload[:minInt(len(e.Payload), 40)]))
+		}
+	}
+	for id := range was {
+		if !seen[id] {
+			return "message " + id + " is gone"
+		}
+	}
+	return ""
 }
